@@ -6,6 +6,9 @@ import time
 
 from .frontend import VERIF, AnalysisBroken
 
+# developer regression runs (tools/par_regress.py) redirect the evidence of mutated trees away from /verif/evidence
+EVIDENCE_DIR = os.environ.get("JCV_EVIDENCE") or os.path.join(VERIF, "evidence")
+
 PROVEN, REFUTED, UNDECIDED = "PROVEN", "REFUTED", "UNDECIDED"
 
 
@@ -160,7 +163,7 @@ class Check:
             sites = [x for x, kk in known_hit if kk is k]
             print("KNOWN-FINDING: property=%s %s [%s %s %s%s]" % (prop, k.get("what", o.msg), o.rule, o.loc, o.fn,
                                                                   (", %d sites" % len(sites)) if len(sites) > 1 else ""))
-        vdir = os.path.join(VERIF, "evidence", "violations")
+        vdir = os.path.join(EVIDENCE_DIR, "violations")
         os.makedirs(vdir, exist_ok=True)
         for f in os.listdir(vdir):
             if f.startswith(prop + "-"):
@@ -231,7 +234,7 @@ class Check:
             "wall_s": round(time.time() - self.t0, 3),
             "violations": len(viol),
         }
-        edir = os.path.join(VERIF, "evidence")
+        edir = EVIDENCE_DIR
         os.makedirs(edir, exist_ok=True)
         tmp = os.path.join(edir, ".%s.json.tmp%d" % (self.prop, os.getpid()))
         with open(tmp, "w") as fh:
@@ -259,7 +262,7 @@ def write_broken_evidence(prop, tier, seed, msg, t0):
           "coverage": {"explanation": "ANALYSIS BROKEN (exit 2): " + msg, "evaluations": 1, "distinct_nontrivial": 0,
                        "samples": [msg]},
           "wall_s": round(time.time() - t0, 3), "violations": 0}
-    edir = os.path.join(VERIF, "evidence")
+    edir = EVIDENCE_DIR
     os.makedirs(edir, exist_ok=True)
     with open(os.path.join(edir, "%s.json" % prop), "w") as fh:
         json.dump(ev, fh, indent=1)
